@@ -2,6 +2,7 @@ package main
 
 import (
 	"fmt"
+	"go/types"
 	"strings"
 
 	"golang.org/x/tools/go/ssa"
@@ -11,7 +12,7 @@ func init() {
 	register(&PropDef{
 		ID:          "C08",
 		Level:       "other",
-		Explanation: "Failure handling as path/effect tables: the dependency verdict (dependents of a failed or canceled stage are marked canceled and never launched; allow_failure keeps dependents ready) on all status × allow rows; STAGE RESULT — in the stage goroutine err∧¬allow sets Error, records the error as the scheduler's result and never sets Done, err∧allow sets Error then Done, ¬err sets Done; FAIL-FAST — in the task-change callback errored ∧ definition found ∧ ¬continue cancels THIS job through the internal cancel, errored ∧ continue and ¬errored never cancel; RUNNER — in execute an exit status with allow_failure continues without marking the task errored, anything else marks it errored, stores and returns the error; WIRING — Stage.AllowFailure and Task.AllowFailure come from the task definition; VERDICT — the completion handler stores the scheduler's result as the job's last error and sets Canceled iff it is context.Canceled, the API's errored flag is the OR over the job's tasks, and no nil verdict leaves the scheduler on the cancel exit.",
+		Explanation: "Failure handling as path/effect tables: the dependency verdict (dependents of a failed or canceled stage are marked canceled and never launched; allow_failure keeps dependents ready) on all status × allow rows; STAGE RESULT — in the stage goroutine err∧¬allow sets Error, records the error as the scheduler's result and never sets Done, err∧allow sets Error then Done, ¬err sets Done; FAIL-FAST — in the task-change callback errored ∧ definition found ∧ ¬continue cancels THIS job through the internal cancel, errored ∧ continue and ¬errored never cancel; RUNNER — in execute an exit status with allow_failure continues without marking the task errored, anything else marks it errored, stores and returns the error, and every function between the stage goroutine and execute (the stage runner, Run) returns the error of the call one level down on every path on which that call did not return nil; WIRING — Stage.AllowFailure and Task.AllowFailure come from the task definition; VERDICT — the completion handler stores the scheduler's result as the job's last error and sets Canceled iff it is context.Canceled, the API's errored flag is the OR over the job's tasks, and no nil verdict leaves the scheduler on the cancel exit.",
 		Trusted:     []string{"upstream runner/executor report exit statuses through executor.IsExitStatus", "C13"},
 		NotDecided:  []string{"which tasks actually ran", "order of the three callback streams"},
 		Check:       checkC08,
@@ -30,6 +31,7 @@ func checkC08(w *World, r *Report) {
 	stageResult(w, r, "stage-result")
 	failFast(w, r, ro, "fail-fast")
 	runnerExecute(w, r, "runner-execute")
+	runnerPropagates(w, r, "runner-propagates")
 	stageWiring(w, r, ro, "wiring")
 	checkCanceledVerdict(w, r, ro)
 	apiErrored(w, r, "api-errored")
@@ -37,6 +39,7 @@ func checkC08(w *World, r *Report) {
 	r.Floor("stage-result", 1)
 	r.Floor("fail-fast", 1)
 	r.Floor("runner-execute", 1)
+	r.Floor("runner-propagates", 2)
 	r.Floor("verdict.", 3)
 }
 
@@ -331,4 +334,107 @@ func apiErrored(w *World, r *Report, rule string) {
 		ok = hasFalse && hasTaskErrored && hasTrue
 	})
 	r.Check(ok, rule, FuncName(fn)+": errored = OR over the job's tasks", w.Pos(fn.Pos()), "the job's errored flag starts false and accumulates each task's Errored", "the API's errored flag is not the OR over the tasks' Errored flags")
+}
+
+// runnerPropagates: the error of a failing command reaches the scheduler's stage goroutine — every function
+// between the stage goroutine and the command loop (the stage runner, TaskRunner.Run) returns the error of
+// the call one level down on every path on which that call was made and did not return nil. Otherwise a
+// failed task counts as done: its dependents run and the job is reported successful.
+func runnerPropagates(w *World, r *Report, rule string) {
+	exec := w.FuncByRole("taskctl", "(*TaskRunner).execute", func(f *ssa.Function) bool {
+		return recvIs(f, "TaskRunner") && callsNamed(f, "PgidExecutor).Execute") && w.storesField(f, "Task", "Errored")
+	})
+	if exec == nil {
+		r.Undecided(rule, "taskctl.TaskRunner.execute", "-", "not found")
+		return
+	}
+	pkg := exec.Package()
+	callersOf := func(g *ssa.Function) (out []*ssa.Function, calls map[*ssa.Function][]*ssa.Call) {
+		calls = map[*ssa.Function][]*ssa.Call{}
+		for _, f := range w.ModFuncs {
+			if f.Package() != pkg || f.Synthetic != "" || f == g {
+				continue
+			}
+			allInstrs(f, func(in ssa.Instruction) {
+				c, ok := in.(*ssa.Call)
+				if !ok {
+					return
+				}
+				hit := c.Call.StaticCallee() == g
+				if c.Call.IsInvoke() && g.Signature.Recv() != nil && c.Call.Method.Name() == g.Name() {
+					if types.Implements(g.Signature.Recv().Type(), c.Call.Value.Type().Underlying().(*types.Interface)) {
+						hit = true
+					}
+				}
+				if hit {
+					if len(calls[f]) == 0 {
+						out = append(out, f)
+					}
+					calls[f] = append(calls[f], c)
+				}
+			})
+		}
+		return
+	}
+	level := []*ssa.Function{exec}
+	n := 0
+	for depth := 0; depth < 2; depth++ {
+		var next []*ssa.Function
+		for _, g := range level {
+			fs, calls := callersOf(g)
+			for _, f := range fs {
+				if f.Signature.Results().Len() != 1 || f.Signature.Results().At(0).Type().String() != "error" {
+					continue // the stage goroutine itself (judged by the stage outcome table)
+				}
+				next = append(next, f)
+				res := w.EnumPaths(f, EnumOpts{MaxPaths: 20000})
+				if res.Truncated {
+					r.Undecided(rule, FuncName(f)+": error of "+g.Name(), w.Pos(f.Pos()), "path cap exceeded")
+					continue
+				}
+				bad := ""
+				seen := 0
+				for _, p := range res.Paths {
+					if p.End != "return" || len(p.Ret) != 1 {
+						continue
+					}
+					for _, e := range p.Effects {
+						c, isCall := e.In.(*ssa.Call)
+						if e.Kind != "call" || !isCall {
+							continue
+						}
+						mine := false
+						for _, cc := range calls[f] {
+							mine = mine || cc == c
+						}
+						if !mine {
+							continue
+						}
+						ap := e.Target + "(" + e.Val + ")"
+						okNil := false
+						for _, l := range p.Lits {
+							if l.Atom.Op == "==" && l.Atom.L == ap && l.Atom.R == "nil" && l.Val {
+								okNil = true
+							}
+						}
+						if okNil {
+							continue
+						}
+						seen++
+						if unwrapErrAP(p.Ret[0]) != ap {
+							bad = fmt.Sprintf("on a path where %s did not return nil, %s returns %s (%s)", g.Name(), f.Name(), p.Ret[0], p.LitString())
+						}
+					}
+				}
+				n++
+				r.Check(bad == "" && seen > 0, rule, FuncName(f)+": error of "+g.Name()+" is returned", w.Pos(f.Pos()),
+					"every path on which "+g.Name()+" was called and did not return nil returns that error",
+					"the error of a failed command does not reach the scheduler: "+bad+" — the failed task's stage counts as done, its dependents run and the job is reported successful")
+			}
+		}
+		level = next
+	}
+	if n == 0 {
+		r.Undecided(rule, "taskctl: callers of the command loop", "-", "no error-returning caller of "+FuncName(exec)+" found")
+	}
 }
